@@ -33,14 +33,28 @@ func (o *Operator) match(expression string, start, maximum int) bool {
 		return false
 	}
 	matches := o.Symbol == expression[start:start+len(o.Symbol)]
-	// Hack to allow negative exponents on floating point numbers (i.e. 1.2e-2)
+	// Hack to allow negative exponents on floating point numbers (i.e. 1.2e-2). The digit before the 'e' has to be the
+	// end of a numeric literal; in a name such as $a1e the 'e' is not an exponent marker and the '-' is an operator.
 	if matches && len(o.Symbol) == 1 && o.Symbol == "-" && start > 1 && expression[start-1:start] == "e" {
 		ch, _ := utf8.DecodeRuneInString(expression[start-2 : start-1])
-		if unicode.IsDigit(ch) {
+		if unicode.IsDigit(ch) && endsNumericLiteral(expression, start-2) {
 			return false
 		}
 	}
 	return matches
+}
+
+// endsNumericLiteral reports whether the digit at index last is the end of a numeric literal: walking back over digits
+// and decimal points must reach the start of the expression or a byte that cannot be part of a name.
+func endsNumericLiteral(expression string, last int) bool {
+	for i := last; i >= 0; i-- {
+		ch := expression[i]
+		if (ch >= '0' && ch <= '9') || ch == '.' {
+			continue
+		}
+		return ch != '_' && ch != '$' && ch != '#' && ch < utf8.RuneSelf && (ch < 'a' || ch > 'z') && (ch < 'A' || ch > 'Z')
+	}
+	return true
 }
 
 // OpenParen (
